@@ -354,6 +354,8 @@ def mk_ite(c, a, b):
         return c
     if isinstance(a, Const) and isinstance(b, Const) and a.v is False and b.v is True:
         return mk_not(c)
+    if isinstance(a, Tup) and isinstance(b, Tup) and len(a.items) == len(b.items) and a.kind == b.kind:
+        return Tup(tuple(mk_ite(c, x, y) for x, y in zip(a.items, b.items)), a.kind)
     return Ite(c, a, b)
 
 
@@ -531,6 +533,9 @@ class Evaluator:
         if init is None:
             if ci.name in ('RegionMeta', 'RegionVisual', 'Meta'):
                 return App(ci.name, tuple(args))
+            if any(isinstance(b, str) and b == 'list' for b in ci.bases):
+                items = _iter_items(args[0]) if args else []
+                obj.fields['__items__'] = Tup(tuple(items or ()), 'list')
             return obj
         if ci.name in ('RegionMeta', 'RegionVisual', 'Meta'):
             if not args and not kwargs:
@@ -841,9 +846,18 @@ class Evaluator:
             if isinstance(base, Obj):
                 base.fields[t.attr] = v
             fr.effects.append(('setattr', base, t.attr, v))
-        elif isinstance(t, ast.Subscript) and isinstance(t.slice, ast.Slice) and isinstance(t.value, ast.Name) \
+        elif isinstance(t, ast.Subscript) and isinstance(t.slice, ast.Slice) and \
+                isinstance(t.value, (ast.Name, ast.Attribute)) \
                 and isinstance(self.expr(t.value, env, fr), Tup) and isinstance(v, Tup):
             base = self.expr(t.value, env, fr)
+
+            def _store(new):
+                if isinstance(t.value, ast.Name):
+                    env[t.value.id] = new
+                else:
+                    holder = self.expr(t.value.value, env, fr)
+                    if isinstance(holder, Obj):
+                        holder.fields[t.value.attr] = new
 
             def iv(x):
                 if x is None:
@@ -852,14 +866,26 @@ class Evaluator:
                 return int(r) if isinstance(r, sp.Integer) else 'sym'
             lo, hi = iv(t.slice.lower), iv(t.slice.upper)
             if 'sym' in (lo, hi) or t.slice.step is not None:
-                env[t.value.id] = Unknown('slice assignment with symbolic bounds')
+                _store(Unknown('slice assignment with symbolic bounds'))
             else:
                 items = list(base.items)
                 items[slice(lo, hi)] = list(v.items)
-                env[t.value.id] = Tup(tuple(items), base.kind)
+                _store(Tup(tuple(items), base.kind))
         elif isinstance(t, ast.Subscript):
             base = self.expr(t.value, env, fr)
             k = self.expr(t.slice, env, fr)
+            if isinstance(base, Tup) and isinstance(k, sp.Integer) and -len(base.items) <= int(k) < len(base.items):
+                items = list(base.items)
+                items[int(k)] = v
+                new = Tup(tuple(items), base.kind)
+                if isinstance(t.value, ast.Name):
+                    env[t.value.id] = new
+                elif isinstance(t.value, ast.Attribute):
+                    holder = self.expr(t.value.value, env, fr)
+                    if isinstance(holder, Obj):
+                        holder.fields[t.value.attr] = new
+                fr.effects.append(('setitem', base, k, v))
+                return
             if isinstance(base, DictV) and isinstance(k, Const):
                 base.set(k.v, v)
             elif isinstance(t.value, ast.Name):
@@ -1144,6 +1170,9 @@ class Evaluator:
             if isinstance(a, Const) and isinstance(b, Const) and isinstance(b.v, str) and isinstance(a.v, str):
                 return Const((a.v in b.v) == pos)
             return Cmp('in' if pos else 'notin', a, b)
+        if isinstance(op, (ast.Eq, ast.NotEq)) and isinstance(a, Obj) and getattr(a, 'truth', None) is True \
+                and isinstance(b, Const) and b.v == '':
+            return Const(isinstance(op, ast.NotEq))
         if isinstance(a, Const) and isinstance(b, Const):
             try:
                 r = {ast.Eq: a.v == b.v, ast.NotEq: a.v != b.v}.get(type(op))
@@ -1204,6 +1233,8 @@ class Evaluator:
         if isinstance(a, Const) and isinstance(b, Const) and isinstance(a.v, str) and \
                 isinstance(b.v, str) and isinstance(op, ast.Add):
             return Const(a.v + b.v)
+        if isinstance(op, ast.Mult) and isinstance(a, Tup) and a.kind in ('list', 'tuple') and isinstance(b, sp.Integer):
+            return Tup(a.items * int(b), a.kind)
         if isinstance(a, Tup) or isinstance(b, Tup):
             return _broadcast(lambda x, y: self.binop(op, x, y), a, b)
         if isinstance(a, Obj) and a.cls == 'PixCoord' and isinstance(b, Obj) and b.cls == 'PixCoord' \
@@ -1291,6 +1322,8 @@ class Evaluator:
             return App('attr:' + attr, (base,))
         if isinstance(base, Tup) and attr == 'T':
             return _transpose(base)
+        if isinstance(base, Tup) and attr == 'size' and all(not isinstance(i, Tup) for i in base.items):
+            return sp.Integer(len(base.items))
         if isinstance(base, Ite):
             return mk_ite(base.cond, self.attr(base.a, attr, fr), self.attr(base.b, attr, fr))
         if isinstance(base, App) and base.name == 'to' and attr == 'value':
@@ -1397,6 +1430,16 @@ class Evaluator:
     def method_call(self, base, meth, args, kwargs, fr, node):
         if is_unknown(base):
             return base
+        if isinstance(base, Obj) and isinstance(base.fields.get('__items__'), Tup) and meth in ('append', 'extend') \
+                and len(args) == 1:
+            cur = base.fields['__items__']
+            if meth == 'append':
+                base.fields['__items__'] = Tup(cur.items + (args[0],), 'list')
+            else:
+                more = _iter_items(args[0])
+                base.fields['__items__'] = Tup(cur.items + tuple(more), 'list') if more is not None else \
+                    Unknown('list extended by symbolic iterable')
+            return Const(None)
         if 'method:' + meth in self.hooks:
             r = self.hooks['method:' + meth](self, [base] + list(args), kwargs)
             if r is not NotImplemented:
@@ -1420,6 +1463,10 @@ class Evaluator:
                 if isinstance(r, bool) or isinstance(r, str):
                     return Const(r)
                 return sp.Integer(r)
+            if meth == 'join' and len(args) == 1:
+                items = _iter_items(args[0])
+                if items is not None and all(isinstance(i, Const) and isinstance(i.v, str) for i in items):
+                    return Const(base.v.join(i.v for i in items))
             if meth == 'format':
                 return App('str.format', (base,) + tuple(args) + tuple(
                     Tup((Const(k), v)) for k, v in sorted(kwargs.items(), key=lambda kv: kv[0]) if k != '**') + (
@@ -1540,7 +1587,7 @@ class Evaluator:
                 return BoolT(short[8:], tuple(a))
             if short in ('array', 'asarray', 'asanyarray') and a:
                 if isinstance(a[0], Tup) and any(isinstance(i, (App, Obj)) for i in a[0].items):
-                    return Tup(a[0].items, 'list')
+                    return Tup(a[0].items, 'array')
                 if isinstance(a[0], Tup):
                     return Tup(a[0].items, 'array') if not any(
                         isinstance(i, Tup) for i in a[0].items) else Tup(
@@ -1572,8 +1619,13 @@ class Evaluator:
             if a and isinstance(a[0], (ExtRef, FuncRef, ClassRef)):
                 return Const(True)
             return App('callable', tuple(a))
+        if name == 'getattr' and len(a) == 3 and isinstance(a[1], Const) and isinstance(a[0], Tup) \
+                and a[1].v not in ('T', 'size', 'shape', 'ndim', 'dtype'):
+            return a[2]            # a plain sequence/ndarray has no such attribute: the default applies
         if name == 'getattr' and len(a) >= 2 and isinstance(a[1], Const):
             return self.attr(a[0], a[1].v, fr)
+        if name == 'hasattr' and len(a) == 2 and isinstance(a[1], Const) and isinstance(a[0], Tup):
+            return Const(a[1].v in ('__len__', '__iter__', '__getitem__'))
         if name == 'hasattr' and len(a) == 2 and isinstance(a[1], Const) and isinstance(a[0], Obj):
             o = a[0]
             if a[1].v in o.fields:
@@ -1606,6 +1658,13 @@ class Evaluator:
                 return Tup(tuple(items), name)
         if name in ('list', 'dict') and not a and not kwargs:
             return Tup((), 'list') if name == 'list' else DictV([{}])
+        if name == 'dict' and len(a) == 1 and isinstance(a[0], DictV):
+            d = a[0].copy()
+            if kwargs:
+                d.layers.append(dict(kwargs))
+            return d
+        if name == 'dict' and not a and kwargs and '**' not in kwargs:
+            return DictV([dict(kwargs)])
         if name == 'len' and len(a) == 1:
             items = _iter_items(a[0])
             if items is not None:
@@ -1658,11 +1717,21 @@ def _cls_names(t):
     return None
 
 
+PLAIN_QUANTITY = set()     # symbols known to be plain Quantity objects (not Angle)
+
+
 def _fold_isinstance(model, v, t):
     """Decide isinstance(v, t) when the abstract value's class is known."""
     names = _cls_names(t)
     if names is None:
         return None
+    if isinstance(v, App) and v.name.startswith('astropy.') and v.name.split('.')[-1][:1].isupper():
+        made = v.name.split('.')[-1]
+        sub = {'Angle': {'Angle', 'Quantity'}, 'Quantity': {'Quantity'}, 'SkyCoord': {'SkyCoord'}}.get(made)
+        if sub is not None and all(k == 'ext' for k, c in names):
+            return any(c in sub for k, c in names)
+    if isinstance(v, sp.Symbol) and v in PLAIN_QUANTITY and all(k == 'ext' for k, c in names):
+        return any(c == 'Quantity' for k, c in names)
     if isinstance(v, Obj) and getattr(v, 'typed', True) is False:
         return None
     if isinstance(v, Obj) and (v.ci is not None or v.cls in ('SkyCoord', 'RegionMeta', 'RegionVisual')):
@@ -1681,10 +1750,15 @@ def _fold_isinstance(model, v, t):
     if isinstance(v, sp.Basic):
         q = _has_unit(v)
         res = False
+        if {'Quantity', 'Number'} <= {c for k_, c in names if k_ == 'ext'}:
+            return True
         for kind, c in names:
             if kind == 'repo':
                 continue
-            if c == 'Quantity':
+            if c == 'Number':
+                if not q:
+                    res = True
+            elif c == 'Quantity':
                 if q:
                     res = True
             elif c in ('Angle',):
@@ -1814,6 +1888,11 @@ def _nth(x, i):
 def _iter_items(v):
     if isinstance(v, Tup):
         return list(v.items)
+    if isinstance(v, Obj) and isinstance(v.fields.get('__items__'), Tup):
+        return list(v.fields['__items__'].items)
+    if isinstance(v, App) and v.name == 'dict.items' and isinstance(v.args[0], DictV) and not v.args[0].has_symbolic():
+        d = v.args[0]
+        return [Tup((Const(k), d.get(k))) for k in d.keys()]
     if isinstance(v, DictV) and not v.has_symbolic():
         return [Const(k) for k in v.keys()]
     return None
